@@ -41,6 +41,38 @@
     including what happens when the named publication is absent        C20_query_from_publication, C20_query_after_publication,
                                                                        C20_query_before_publication, C20_query_until_publication
   the meta procedure answers with exactly that, rendered per entry     C20_query_metaProc
+  "and only those": for EVERY query the answer (read backwards when
+    `reverse`) is a sub-list of the store: entries of that store,
+    each at most once, in store order                                  C20_scan_sublist, C20_answer_sublist, C20_answer_mem,
+                                                                       C20_query_metaProc_sublist (meta procedure level)
+  … hence no answered entry carries a publisher key (C12)              C20_answer_no_identity
+  `topic` filter, read as the property text reads it ("entries of
+    publications to that topic"): TRUE for pattern subscriptions,
+    FALSE for exact-match subscriptions — their entries store no
+    `details.topic`, so get_events(sub, topic = its own topic)
+    answers NOTHING (Go: broker.go:1272-1275 with prepareEvent:787)    C20_topic_filter_full (def), C20_topic_filter_full_fails,
+                                                                       C20_topic_filter_pattern, C20_topic_filter_exact,
+                                                                       C20_topic_filter_exact_scan, C20_topic_filter_exact_metaProc
+  argument parsing: what each keyword argument is parsed to; the
+    parser fails exactly on the listed malformations; well-formed
+    arguments always parse                                             C20_histQuery_spec, C20_histQuery_none_iff, C20_histQuery_total
+  other branches of the meta procedure: no argument / first argument
+    not an id / malformed kwargs ⇒ ERROR invalid_argument, state
+    unchanged; unknown subscription or subscription without store ⇒
+    empty list, is_limit_reached = false                               C20_query_metaProc_errors, C20_query_metaProc_nostore
+  REALM LEVEL (every `Realm.Reachable cfg r`; Nexus/L2/Proofs/WpAEvo.lean, WpARealm.lean):
+  the realm's broker IS a `Broker.run` of steps from the
+    pre-initialised broker; its publish steps carry strictly
+    increasing ids drawn from the realm's counter and payload-passthru
+    details without `topic` / publisher keys                           C20_reachable_run
+  stored publication ids are strictly increasing, hence distinct
+    (the `Nodup` hypothesis of the four publication-bound clauses),
+    and below pubBase + pubCount                                       C20_store_pubs_nodup
+  retention for a configured (topic, policy, N) in every reachable
+    realm state (N > 0 follows from the configuration check)           C20_retention_realm
+  the four publication-bound clauses for every store of a reachable
+    realm, no side condition left                                      C20_query_publication_realm
+  no get_events answer in a reachable realm carries a publisher key    C20_answer_no_identity_realm
 
   What the pipeline of `C20_query_scan` says about COMBINED bounds (this is what the code does):
   the time bounds are applied first and hide entries from the publication bounds — a
@@ -49,10 +81,13 @@
   `before_publication` cuts before `until_publication` is looked at; the `topic` filter is applied
   last and does not hide an entry from the publication bounds.
   Explicit assumptions: N > 0 (`0 < h.limit`; the realm configuration check guarantees it);
-  publication ids in a store distinct for the four `*_publication` clauses (`Fresh` ids).
+  publication ids in a store distinct for the four `*_publication` clauses (`Fresh` ids) — discharged
+  for every reachable realm by `C20_store_pubs_nodup`.
 -/
 import Nexus.L2.Proofs.BrokerHist
 import Nexus.L2.Proofs.BrokerQuery
+import Nexus.L2.Proofs.WpARealm
+import Nexus.L2.Proofs.WpABkC20
 
 namespace Nexus.C20
 open Nexus.L2 Gen.N
@@ -339,5 +374,550 @@ theorem C20_query_metaProc (r : Realm) (req : Nat) (details : Dict) (a : WVal) (
 
 example : histQuery? [("limit", .int 2), ("reverse", .bool true)] =
     some { limit := 2, reverse := true } := by rfl
+
+/-! ### "and only those": the answer is a sub-list of the store (work package A, audit C20-G5) -/
+
+theorem fromStage_sublist (x : Nat) (l : List HistEntry) : (fromStage x l).Sublist l := by
+  unfold fromStage; split
+  · exact List.Sublist.refl _
+  · exact List.dropWhile_sublist _
+
+theorem afterStage_sublist (x : Nat) (l : List HistEntry) : (afterStage x l).Sublist l := by
+  unfold afterStage; split
+  · exact List.Sublist.refl _
+  · exact (List.drop_sublist _ _).trans (List.dropWhile_sublist _)
+
+theorem beforeStage_sublist (x : Nat) (l : List HistEntry) : (beforeStage x l).Sublist l := by
+  unfold beforeStage; split
+  · exact List.Sublist.refl _
+  · exact List.takeWhile_sublist _
+
+theorem untilStage_sublist (x : Nat) (l : List HistEntry) : (untilStage x l).Sublist l := by
+  unfold untilStage; split
+  · exact List.Sublist.refl _
+  · have h : (l.takeWhile (fun e => e.pub != x) ++ (l.dropWhile (fun e => e.pub != x)).take 1).Sublist
+        (l.takeWhile (fun e => e.pub != x) ++ l.dropWhile (fun e => e.pub != x)) :=
+      List.Sublist.append (List.Sublist.refl _) (List.take_sublist _ _)
+    rwa [List.takeWhile_append_dropWhile] at h
+
+/-- every stage of the pipeline only removes entries -/
+theorem C20_scan_sublist (q : HistQuery) (es : List HistEntry) : (scanSpec q es).Sublist es := by
+  unfold scanSpec
+  exact (List.filter_sublist).trans ((untilStage_sublist _ _).trans ((beforeStage_sublist _ _).trans
+    ((afterStage_sublist _ _).trans ((fromStage_sublist _ _).trans List.filter_sublist))))
+
+/-- "… and only those", list level.  For EVERY query the entries answered are entries of the store,
+    each at most once, in store order — after undoing the reversal when `reverse` was asked for. -/
+theorem C20_answer_sublist (q : HistQuery) (es : List HistEntry) :
+    (if q.reverse then (histAnswer q es).reverse else histAnswer q es).Sublist es := by
+  have hr : (if q.limit > 0 then lastN q.limit (scanSpec q es) else scanSpec q es).Sublist es := by
+    split
+    · exact (List.drop_sublist _ _).trans (C20_scan_sublist q es)
+    · exact C20_scan_sublist q es
+  rw [C20_query_answer]
+  cases hrev : q.reverse
+  · simpa using hr
+  · simpa using hr
+
+/-- consequence: every answered entry is an entry of the store -/
+theorem C20_answer_mem (q : HistQuery) (es : List HistEntry) : ∀ e ∈ histAnswer q es, e ∈ es := by
+  intro e he
+  have h := C20_answer_sublist q es
+  cases hrev : q.reverse
+  · rw [hrev] at h; exact h.subset he
+  · rw [hrev] at h; exact h.subset (List.mem_reverse.mpr he)
+
+/-- consequence for C12 ("get_events answers never reveal the publisher", audit C12-a6): if no entry
+    of the store carries a publisher key (`Nexus.C12.C12_history_no_identity`), no answered entry does. -/
+theorem C20_answer_no_identity (q : HistQuery) (es : List HistEntry)
+    (hclean : ∀ e ∈ es, ∀ key, isPublisherKey key → e.details.get? key = none) :
+    ∀ e ∈ histAnswer q es, ∀ key, isPublisherKey key → e.details.get? key = none :=
+  fun e he => hclean e (C20_answer_mem q es e he)
+
+/-- The same at the level of the meta procedure: a well-formed `wamp.subscription.get_events` call on
+    an existing subscription with store `h` answers the list `ans.map histEntryVal` where `ans`
+    (read backwards when `reverse` was requested) is a sub-list of `h.entries`; in particular every
+    value in the answer is the rendering of an entry of THAT subscription's store. -/
+theorem C20_query_metaProc_sublist (r : Realm) (req : Nat) (details : Dict) (a : WVal) (rest : List WVal) (kw : Dict)
+    (id : Nat) (q : HistQuery) (h : Hist) (ha : a.asID = some id) (hq : histQuery? kw = some q)
+    (hsub : (r.broker.findId id).isSome = true) (hh : r.broker.hist.find? (fun h => h.sub == id) = some h) :
+    ∃ ans : List HistEntry,
+      metaProc r MetaProcEventHistory req details (a :: rest) kw =
+        (mYield req (ans.map histEntryVal) [("is_limit_reached", .bool (h.entries.length ≥ h.limit))], r) ∧
+      (if q.reverse then ans.reverse else ans).Sublist h.entries ∧
+      (∀ v ∈ ans.map histEntryVal, ∃ e ∈ h.entries, v = histEntryVal e) ∧
+      h ∈ r.broker.hist ∧ h.sub = id :=
+  ⟨histAnswer q h.entries, C20_query_metaProc r req details a rest kw id q h ha hq hsub hh,
+    C20_answer_sublist q h.entries,
+    fun v hv => by
+      obtain ⟨e, he, rfl⟩ := List.mem_map.mp hv
+      exact ⟨e, C20_answer_mem q h.entries e he, rfl⟩,
+    List.mem_of_find?_eq_some hh, by simpa using List.find?_some hh⟩
+
+/-- a realm whose broker went through the example history -/
+def exRealm : Realm := { broker := exB0.run exSteps }
+
+/-- by `C20_retention`: subscription 1 of `exRealm` exists and its store is found, with limit 2 and
+    the last two retained publications (12 and 13) -/
+theorem exRealm_store : ∃ h, exRealm.broker.hist.find? (fun h => h.sub == 1) = some h ∧ h.limit = 2 ∧
+    h.entries = lastN 2 (retained exS0 exSteps) ∧ (exRealm.broker.findId 1).isSome = true := by
+  have hh : exH0 ∈ (({ strict := false, allowDisclose := false } : Broker).preInit exCfg).hist := by
+    show exH0 ∈ exB0.hist
+    rw [exB0_hist]; simp
+  have hs : exS0 ∈ (({ strict := false, allowDisclose := false } : Broker).preInit exCfg).subs := by
+    show exS0 ∈ exB0.subs
+    rw [exB0_subs]; simp
+  obtain ⟨h, hm, e1, e2, e3, huniq, s, hsm, e4, _⟩ :=
+    C20_retention false false exCfg exSteps hh hs rfl (by decide)
+  have hinv : BrokerInv exRealm.broker := (BrokerInv.preInit false false exCfg).run exSteps
+  refine ⟨h, ?_, e2, e3, ?_⟩
+  · cases hf : exRealm.broker.hist.find? (fun h => h.sub == 1) with
+    | none =>
+      have := List.find?_eq_none.mp hf h hm
+      have e1' : h.sub = 1 := e1
+      exact absurd (by simp [e1']) this
+    | some h' =>
+      have h1 := List.mem_of_find?_eq_some hf
+      have h2 := List.find?_some hf
+      rw [huniq h' h1 (show h'.sub = 1 by simpa using h2)]
+  · have := findId_of_mem hinv.ids_nodup hsm
+    rw [e4] at this
+    show (exRealm.broker.findId 1).isSome = true
+    rw [show exS0.id = 1 from rfl] at this
+    rw [this]; rfl
+
+/-- non-vacuity: the query `limit = 1, reverse` on subscription 1 of `exRealm` is well-formed, finds
+    the store (entries 12, 13) and is answered with the single entry 13. -/
+example : (WVal.int 1).asID = some 1 ∧
+    histQuery? [("limit", .int 1), ("reverse", .bool true)] = some { limit := 1, reverse := true } ∧
+    (∃ h, exRealm.broker.hist.find? (fun h => h.sub == 1) = some h ∧ h.entries.map (·.pub) = [12, 13] ∧
+      (exRealm.broker.findId 1).isSome = true) ∧
+    (histAnswer { limit := 1, reverse := true }
+      (lastN 2 (retained exS0 exSteps))).map (·.pub) = [13] := by
+  obtain ⟨h, h1, _, h3, h4⟩ := exRealm_store
+  exact ⟨by decide, by rfl, ⟨h, h1, by rw [h3]; rfl, h4⟩, by rfl⟩
+
+/-! ### the `topic` filter (work package A, audit C20-G4) -/
+
+/-- FULL statement of "the topic filter selects exactly the entries it describes", read as the
+    property text reads it: an entry retained for publication `p` passes the filter `topic = t` iff
+    `p` was published to `t`. -/
+def C20_topic_filter_full : Prop :=
+  ∀ (s : Sub) (now : Nat) (p : Publication) (t : String),
+    p.baseDetails.get? "topic" = none → s.matchesTopic p.topic = true →
+    (topicIs (retainedEntry s now p) t = true ↔ p.topic = t)
+
+/-- for a pattern-based subscription (prefix, wildcard) the full statement holds -/
+theorem C20_topic_filter_pattern (s : Sub) (now : Nat) (p : Publication) (t : String)
+    (hp : s.isPattern = true) :
+    topicIs (retainedEntry s now p) t = true ↔ p.topic = t := by
+  unfold topicIs
+  rw [retainedEntry_topic, hp]
+  simp
+
+/-- for an EXACT-match subscription no entry passes any topic filter: the stored details carry no
+    `topic` key (given that the payload-passthru details have none, as for every publication the
+    realm hands over). -/
+theorem C20_topic_filter_exact (s : Sub) (now : Nat) (p : Publication) (t : String)
+    (hp : s.isPattern = false) (hbase : p.baseDetails.get? "topic" = none) :
+    topicIs (retainedEntry s now p) t = false := by
+  unfold topicIs
+  rw [retainedEntry_topic, hp]
+  simp [hbase]
+
+/-- The full statement is FALSE: the exact-match subscription `exS0` on "t" retains publication 10
+    (published to "t"), but that entry does not pass the filter `topic = "t"`. -/
+theorem C20_topic_filter_full_fails : ¬ C20_topic_filter_full := by
+  intro h
+  have h1 := (h exS0 1 (exPub 10 []) "t" (by rfl) (by decide)).mpr (by rfl)
+  rw [C20_topic_filter_exact exS0 1 (exPub 10 []) "t" (by decide) (by rfl)] at h1
+  exact Bool.noConfusion h1
+
+/-- list level: on the store of an exact-match subscription whose entries are retained entries
+    (`C20_retention`) a query with a `topic` argument selects nothing, whatever the other bounds. -/
+theorem C20_topic_filter_exact_scan (q : HistQuery) (s : Sub) (es : List HistEntry)
+    (hs : s.isPattern = false) (ht : q.topic ≠ "")
+    (hes : ∀ e ∈ es, ∃ now p, p.baseDetails.get? "topic" = none ∧ e = retainedEntry s now p) :
+    histAnswer q es = [] := by
+  have hscan : scanSpec q es = [] := by
+    unfold scanSpec
+    rw [List.filter_eq_nil_iff]
+    intro e he
+    have hm : e ∈ es :=
+      ((untilStage_sublist _ _).trans ((beforeStage_sublist _ _).trans
+        ((afterStage_sublist _ _).trans ((fromStage_sublist _ _).trans List.filter_sublist)))).subset he
+    obtain ⟨now, p, hb, rfl⟩ := hes e hm
+    unfold topicOk
+    rw [C20_topic_filter_exact s now p q.topic hs hb]
+    simp [ht]
+  rw [C20_query_answer, hscan]
+  simp [lastN]
+
+example : exS0.isPattern = false ∧ ({ topic := "t" } : HistQuery).topic ≠ "" ∧
+    (∀ e ∈ lastN 2 (retained exS0 exSteps), ∃ now p, p.baseDetails.get? "topic" = none ∧ e = retainedEntry exS0 now p) ∧
+    lastN 2 (retained exS0 exSteps) ≠ [] := by
+  refine ⟨by decide, by decide, ?_, by decide⟩
+  intro e he
+  have : e = retainedEntry exS0 3 (exPub 12 []) ∨ e = retainedEntry exS0 4 (exPub 13 []) := by
+    have h2 : lastN 2 (retained exS0 exSteps) = [retainedEntry exS0 3 (exPub 12 []), retainedEntry exS0 4 (exPub 13 [])] := by rfl
+    rw [h2] at he; simpa using he
+  rcases this with rfl | rfl
+  · exact ⟨3, exPub 12 [], rfl, rfl⟩
+  · exact ⟨4, exPub 13 [], rfl, rfl⟩
+
+/-- Concrete, at the level of the meta procedure: the configuration `exCfg` (history of limit 2 on
+    the exact topic "t"), publications 10, 12, 13 to "t" retained (store = 12, 13); the call
+    `wamp.subscription.get_events [1] {topic: "t"}` is answered with the EMPTY list, although every
+    stored entry was published to "t"; without the `topic` argument both entries are answered. -/
+theorem C20_topic_filter_exact_metaProc (req : Nat) (details : Dict) :
+    metaProc exRealm MetaProcEventHistory req details [.int 1] [("topic", .str "t")] =
+      (mYield req [] [("is_limit_reached", .bool true)], exRealm) ∧
+    (∃ h, exRealm.broker.hist.find? (fun h => h.sub == 1) = some h ∧ h.entries.map (·.pub) = [12, 13] ∧
+      ∃ q, histQuery? [] = some q ∧
+        metaProc exRealm MetaProcEventHistory req details [.int 1] [] =
+          (mYield req (h.entries.map histEntryVal) [("is_limit_reached", .bool true)], exRealm)) := by
+  obtain ⟨h, hh, hl, he, hs⟩ := exRealm_store
+  have hlim : decide (h.entries.length ≥ h.limit) = true := by rw [he, hl]; rfl
+  constructor
+  · rw [C20_query_metaProc exRealm req details (.int 1) [] [("topic", .str "t")] 1 { topic := "t" } h
+      (by decide) (by rfl) hs hh, hlim, he]
+    rfl
+  · refine ⟨h, hh, by rw [he]; rfl, {}, by rfl, ?_⟩
+    rw [C20_query_metaProc exRealm req details (.int 1) [] [] 1 {} h (by decide) (by rfl) hs hh, hlim, he]
+    rfl
+
+/-! ### argument parsing of get_events (work package A, audit C20-G6) -/
+
+open Nexus.L2.WpA (timeBound limRaw reverseArg timeArg pubArg histQuery?_eq)
+open Realm (kwStr mErr)
+
+def histTimeKeys : List String := ["from_time", "after_time", "before_time", "until_time"]
+def histPubKeys : List String :=
+  ["from_publication", "after_publication", "before_publication", "until_publication"]
+
+/-- the publication bound denoted by key `k`: 0 (= no bound) when absent, else the id -/
+def pubBound (kw : Dict) (k : String) : Nat :=
+  match kw.get? k with
+  | none => 0
+  | some v => (v.asID).getD 0
+
+/-- The malformed keyword arguments of `get_events`: `limit` present and not an integer ≥ 1;
+    `reverse` present and not a boolean; one of the four `*_time` keys holding a string (the model
+    treats every string as an unparsable time; real times travel as the placeholder `{"$ms": n}`);
+    one of the four `*_publication` keys present and not a valid id. -/
+def HistMalformed (kw : Dict) : Prop :=
+  (∃ v, kw.get? "limit" = some v ∧ ∀ n : Int, v = .int n → n < 1) ∨
+  (∃ v, kw.get? "reverse" = some v ∧ ∀ b, v ≠ .bool b) ∨
+  (∃ k ∈ histTimeKeys, ∃ s, kw.get? k = some (.str s)) ∨
+  (∃ k ∈ histPubKeys, ∃ v, kw.get? k = some v ∧ v.asID = none)
+
+/-- `histQuery?` fails exactly on the malformed keyword arguments. -/
+theorem C20_histQuery_none_iff (kw : Dict) : histQuery? kw = none ↔ HistMalformed kw := by
+  rw [histQuery?_eq]
+  constructor
+  · intro h
+    split at h
+    · rename_i lim rev ft at_ bt ut fp ap bp up h1 h2 h3 h4 h5 h6 h7 h8 h9 h10
+      split at h
+      · rename_i l
+        split at h
+        · rename_i hl
+          exact Or.inl ⟨_, Nexus.L2.WpA.limRaw_some_some.mp h1, fun n hn => by cases hn; exact hl⟩
+        · exact absurd h (by simp)
+      · exact absurd h (by simp)
+    · rename_i hx
+      rcases h1 : limRaw kw with _ | lim
+      · obtain ⟨v, hv, hne⟩ := Nexus.L2.WpA.limRaw_none.mp h1
+        exact Or.inl ⟨v, hv, fun n hn => absurd hn (hne n)⟩
+      rcases h2 : reverseArg kw with _ | rev
+      · exact Or.inr (Or.inl (Nexus.L2.WpA.reverseArg_none.mp h2))
+      rcases h3 : timeArg kw "from_time" with _ | ft
+      · exact Or.inr (Or.inr (Or.inl ⟨_, by simp [histTimeKeys], Nexus.L2.WpA.timeArg_none.mp h3⟩))
+      rcases h4 : timeArg kw "after_time" with _ | at_
+      · exact Or.inr (Or.inr (Or.inl ⟨_, by simp [histTimeKeys], Nexus.L2.WpA.timeArg_none.mp h4⟩))
+      rcases h5 : timeArg kw "before_time" with _ | bt
+      · exact Or.inr (Or.inr (Or.inl ⟨_, by simp [histTimeKeys], Nexus.L2.WpA.timeArg_none.mp h5⟩))
+      rcases h6 : timeArg kw "until_time" with _ | ut
+      · exact Or.inr (Or.inr (Or.inl ⟨_, by simp [histTimeKeys], Nexus.L2.WpA.timeArg_none.mp h6⟩))
+      rcases h7 : pubArg kw "from_publication" with _ | fp
+      · exact Or.inr (Or.inr (Or.inr ⟨_, by simp [histPubKeys], Nexus.L2.WpA.pubArg_none.mp h7⟩))
+      rcases h8 : pubArg kw "after_publication" with _ | ap
+      · exact Or.inr (Or.inr (Or.inr ⟨_, by simp [histPubKeys], Nexus.L2.WpA.pubArg_none.mp h8⟩))
+      rcases h9 : pubArg kw "before_publication" with _ | bp
+      · exact Or.inr (Or.inr (Or.inr ⟨_, by simp [histPubKeys], Nexus.L2.WpA.pubArg_none.mp h9⟩))
+      rcases h10 : pubArg kw "until_publication" with _ | up
+      · exact Or.inr (Or.inr (Or.inr ⟨_, by simp [histPubKeys], Nexus.L2.WpA.pubArg_none.mp h10⟩))
+      exact (hx _ _ _ _ _ _ _ _ _ _ h1 h2 h3 h4 h5 h6 h7 h8 h9 h10).elim
+  · intro h
+    split
+    · rename_i lim rev ft at_ bt ut fp ap bp up h1 h2 h3 h4 h5 h6 h7 h8 h9 h10
+      rcases h with ⟨v, hv, hn⟩ | ⟨v, hv, hn⟩ | ⟨k, hk, s, hs⟩ | ⟨k, hk, v, hv, hn⟩
+      · cases lim with
+        | none =>
+          have := Nexus.L2.WpA.limRaw_some_none.mp h1
+          rw [this] at hv; exact absurd hv (by simp)
+        | some l =>
+          have := Nexus.L2.WpA.limRaw_some_some.mp h1
+          rw [this] at hv
+          have hl : l < 1 := hn l (by simpa using hv.symm)
+          simp [hl]
+      · have : reverseArg kw = none := Nexus.L2.WpA.reverseArg_none.mpr ⟨v, hv, hn⟩
+        rw [this] at h2; exact absurd h2 (by simp)
+      · have hnone : timeArg kw k = none := Nexus.L2.WpA.timeArg_none.mpr ⟨s, hs⟩
+        simp only [histTimeKeys, List.mem_cons, List.not_mem_nil, or_false] at hk
+        rcases hk with rfl | rfl | rfl | rfl
+        · rw [hnone] at h3; exact absurd h3 (by simp)
+        · rw [hnone] at h4; exact absurd h4 (by simp)
+        · rw [hnone] at h5; exact absurd h5 (by simp)
+        · rw [hnone] at h6; exact absurd h6 (by simp)
+      · have hnone : pubArg kw k = none := Nexus.L2.WpA.pubArg_none.mpr ⟨v, hv, hn⟩
+        simp only [histPubKeys, List.mem_cons, List.not_mem_nil, or_false] at hk
+        rcases hk with rfl | rfl | rfl | rfl
+        · rw [hnone] at h7; exact absurd h7 (by simp)
+        · rw [hnone] at h8; exact absurd h8 (by simp)
+        · rw [hnone] at h9; exact absurd h9 (by simp)
+        · rw [hnone] at h10; exact absurd h10 (by simp)
+    · rfl
+
+/-- well-formed keyword arguments are always parsed -/
+theorem C20_histQuery_total (kw : Dict) (h : ¬ HistMalformed kw) : ∃ q, histQuery? kw = some q := by
+  cases hq : histQuery? kw with
+  | none => exact absurd ((C20_histQuery_none_iff kw).mp hq) h
+  | some q => exact ⟨q, rfl⟩
+
+/-- What `histQuery?` parses, key by key.  `limit`: absent ⇒ 0 (no limit), an integer n ≥ 1 ⇒ n;
+    `reverse`: absent ⇒ false, a boolean ⇒ it; the four time bounds: the placeholder `{"$ms": n}` ⇒
+    `some n`, anything else that is not a string (or absent) ⇒ no bound; the four publication
+    bounds: absent ⇒ 0 (no bound), else the id `asID` reads; `topic`: the string (else "" = no
+    filter).  And nothing malformed was present. -/
+theorem C20_histQuery_spec (kw : Dict) (q : HistQuery) (h : histQuery? kw = some q) :
+    ((kw.get? "limit" = none ∧ q.limit = 0) ∨
+      ∃ n : Int, kw.get? "limit" = some (.int n) ∧ 1 ≤ n ∧ q.limit = n.toNat) ∧
+    ((kw.get? "reverse" = none ∧ q.reverse = false) ∨ kw.get? "reverse" = some (.bool q.reverse)) ∧
+    q.fromT = timeBound kw "from_time" ∧ q.afterT = timeBound kw "after_time" ∧
+    q.beforeT = timeBound kw "before_time" ∧ q.untilT = timeBound kw "until_time" ∧
+    q.fromPub = pubBound kw "from_publication" ∧ q.afterPub = pubBound kw "after_publication" ∧
+    q.beforePub = pubBound kw "before_publication" ∧ q.untilPub = pubBound kw "until_publication" ∧
+    q.topic = kwStr kw "topic" ∧ ¬ HistMalformed kw := by
+  have hmal : ¬ HistMalformed kw := fun hm => by
+    rw [(C20_histQuery_none_iff kw).mpr hm] at h; exact absurd h (by simp)
+  have hpub : ∀ k n, pubArg kw k = some n → n = pubBound kw k := by
+    intro k n hk
+    unfold pubBound
+    rcases Nexus.L2.WpA.pubArg_some.mp hk with ⟨h1, h2⟩ | ⟨v, h1, h2⟩
+    · rw [h1]; exact h2
+    · rw [h1]; simp [h2]
+  rw [histQuery?_eq] at h
+  split at h
+  · rename_i lim rev ft at_ bt ut fp ap bp up h1 h2 h3 h4 h5 h6 h7 h8 h9 h10
+    have hrev := Nexus.L2.WpA.reverseArg_some.mp h2
+    have e3 := Nexus.L2.WpA.timeArg_some h3
+    have e4 := Nexus.L2.WpA.timeArg_some h4
+    have e5 := Nexus.L2.WpA.timeArg_some h5
+    have e6 := Nexus.L2.WpA.timeArg_some h6
+    have e7 := hpub _ _ h7
+    have e8 := hpub _ _ h8
+    have e9 := hpub _ _ h9
+    have e10 := hpub _ _ h10
+    split at h
+    · rename_i l
+      split at h
+      · exact absurd h (by simp)
+      · rename_i hl
+        have hq : q = _ := (Option.some.inj h).symm
+        subst hq
+        exact ⟨Or.inr ⟨l, Nexus.L2.WpA.limRaw_some_some.mp h1, by omega, rfl⟩, hrev, e3, e4, e5, e6, e7, e8, e9, e10,
+          rfl, hmal⟩
+    · have hq : q = _ := (Option.some.inj h).symm
+      subst hq
+      exact ⟨Or.inl ⟨Nexus.L2.WpA.limRaw_some_none.mp h1, rfl⟩, hrev, e3, e4, e5, e6, e7, e8, e9, e10, rfl, hmal⟩
+  · exact absurd h (by simp)
+
+/-- non-vacuity and the per-key failure cases of the specification, on concrete arguments -/
+example : histQuery? [("limit", .int 3), ("reverse", .bool true), ("from_time", .dict [("$ms", .int 5)]),
+      ("until_time", .null), ("after_publication", .int 12), ("topic", .str "a.b")] =
+    some { limit := 3, reverse := true, fromT := some 5, afterPub := 12, topic := "a.b" } := by rfl
+example : HistMalformed [("limit", .int 0)] ∧ HistMalformed [("limit", .str "3")] ∧
+    HistMalformed [("reverse", .int 1)] ∧ HistMalformed [("before_time", .str "2024-01-01T00:00:00Z")] ∧
+    HistMalformed [("until_publication", .int 0)] ∧ HistMalformed [("from_publication", .str "x")] ∧
+    ¬ HistMalformed [("limit", .int 3), ("after_time", .int 7)] := by
+  refine ⟨Or.inl ⟨_, rfl, ?_⟩, Or.inl ⟨_, rfl, ?_⟩, Or.inr (Or.inl ⟨_, rfl, ?_⟩),
+    Or.inr (Or.inr (Or.inl ⟨"before_time", by simp [histTimeKeys], _, rfl⟩)),
+    Or.inr (Or.inr (Or.inr ⟨"until_publication", by simp [histPubKeys], _, rfl, by decide⟩)),
+    Or.inr (Or.inr (Or.inr ⟨"from_publication", by simp [histPubKeys], _, rfl, by decide⟩)), ?_⟩
+  · intro n hn; cases hn; decide
+  · intro n hn; cases hn
+  · intro b hb; cases hb
+  · intro hm
+    rw [← C20_histQuery_none_iff] at hm
+    exact absurd hm (by rw [show histQuery? [("limit", .int 3), ("after_time", .int 7)] = some { limit := 3 } from rfl]; simp)
+
+/-! ### the remaining branches of the meta procedure -/
+
+/-- `get_events` with no argument, with a first argument that is not an id, or with malformed
+    keyword arguments answers ERROR `wamp.error.invalid_argument` and changes nothing. -/
+theorem C20_query_metaProc_errors (r : Realm) (req : Nat) (details : Dict) (kw : Dict) :
+    metaProc r MetaProcEventHistory req details [] kw = (mErr req ErrInvalidArgument, r) ∧
+    (∀ a rest, a.asID = none →
+      metaProc r MetaProcEventHistory req details (a :: rest) kw = (mErr req ErrInvalidArgument, r)) ∧
+    (∀ a rest, HistMalformed kw →
+      metaProc r MetaProcEventHistory req details (a :: rest) kw = (mErr req ErrInvalidArgument, r)) := by
+  refine ⟨?_, ?_, ?_⟩
+  · rw [Nexus.L2.WpA.metaProc_history_eq]
+  · intro a rest ha
+    rw [Nexus.L2.WpA.metaProc_history_eq]
+    simp only [ha]
+  · intro a rest hm
+    rw [Nexus.L2.WpA.metaProc_history_eq]
+    simp only [(C20_histQuery_none_iff kw).mpr hm]
+    cases a.asID <;> rfl
+
+/-- A well-formed `get_events` naming a subscription id that does not exist, or a subscription
+    without a history store, answers the empty list with `is_limit_reached = false`. -/
+theorem C20_query_metaProc_nostore (r : Realm) (req : Nat) (details : Dict) (a : WVal) (rest : List WVal) (kw : Dict)
+    (id : Nat) (ha : a.asID = some id) (hq : ¬ HistMalformed kw)
+    (hno : r.broker.findId id = none ∨ ∀ h ∈ r.broker.hist, h.sub ≠ id) :
+    metaProc r MetaProcEventHistory req details (a :: rest) kw =
+      (mYield req [] [("is_limit_reached", .bool false)], r) := by
+  obtain ⟨q, hq⟩ := C20_histQuery_total kw hq
+  rw [Nexus.L2.WpA.metaProc_history_eq]
+  simp only [ha, hq]
+  have : (if (r.broker.findId id).isSome then r.broker.hist.find? (fun h => h.sub == id) else none) = none := by
+    rcases hno with h | h
+    · rw [h]; rfl
+    · split
+      · rw [List.find?_eq_none]; intro x hx; simpa using h x hx
+      · rfl
+  rw [this]
+
+/-- non-vacuity: in `exRealm` subscription 7 does not exist; subscription 2 (prefix "a.") exists -/
+example : (WVal.int 7).asID = some 7 ∧ ¬ HistMalformed [] ∧ (WVal.str "x").asID = none := by
+  refine ⟨by decide, ?_, rfl⟩
+  intro hm
+  rw [← C20_histQuery_none_iff] at hm
+  exact absurd hm (by rw [show histQuery? [] = some {} from rfl]; simp)
+
+/-! ### realm level (work package A): every reachable realm -/
+
+/-- A reachable realm's broker IS a run of broker steps from the broker the realm started with
+    (pre-initialised from the configuration).  The `.publish` steps of that run carry strictly
+    increasing publication ids, all drawn from the realm's counter (`pubBase ≤ id < pubBase +
+    pubCount`), and hand the broker payload-passthru details without `topic` or publisher keys.
+    (`WpA.stepPubId e` is the publication id of a publish step, `none` for the other steps.) -/
+theorem C20_reachable_run {cfg : Config} {r : Realm} (h : Realm.Reachable cfg r) :
+    ∃ steps, r.broker =
+        (({ strict := cfg.strict, allowDisclose := cfg.allowDisclose } : Broker).preInit cfg.history).run steps ∧
+      (steps.filterMap WpA.stepPubId).Pairwise (· < ·) ∧
+      (∀ i ∈ steps.filterMap WpA.stepPubId, pubBase ≤ i ∧ i < pubBase + r.pubCount) ∧
+      (∀ sess now p, BStep.publish sess now p ∈ steps →
+        ∀ key, (key = "topic" ∨ isPublisherKey key) → p.baseDetails.get? key = none) := by
+  obtain ⟨steps, hb, ht⟩ := WpA.reachable_run h
+  refine ⟨steps, hb, ht.ids.1, fun i hi => ?_, fun sess now p hm => WpA.Trace.pubOk ht sess now p hm⟩
+  have := ht.ids.2 i hi
+  omega
+
+/-- In a reachable realm the publication ids stored in any history are strictly increasing in store
+    order — hence pairwise distinct: the hypothesis `hn` of the four `C20_query_*_publication` theorems
+    holds for every store — and all of them have been drawn already. -/
+theorem C20_store_pubs_nodup {cfg : Config} {r : Realm} (h : Realm.Reachable cfg r) :
+    ∀ st ∈ r.broker.hist, (st.entries.map (·.pub)).Nodup ∧ (st.entries.map (·.pub)).Pairwise (· < ·) ∧
+      ∀ e ∈ st.entries, e.pub < pubBase + r.pubCount := by
+  intro st hst
+  obtain ⟨h1, h2⟩ := WpA.store_pubs_fresh h st hst
+  exact ⟨WpA.pairwise_lt_nodup h1, h1, h2⟩
+
+/-- Retention for reachable realms.  If `(topic, m, limit)` is an entry of the realm's history
+    configuration not overridden by a later entry for the same (topic, policy), then in EVERY reachable
+    realm state: the broker is the run of some steps from the initial broker; the limit is positive;
+    there is exactly one store for the subscription `s` with that topic and policy, which still exists;
+    and the store holds the last `limit`, oldest first, of the publications of that run that match `s`
+    and were not restricted by `exclude`/`eligible`. -/
+theorem C20_retention_realm {cfg : Config} {r : Realm} (h : Realm.Reachable cfg r)
+    (pre post : List (String × String × Nat)) (topic m : String) (limit : Nat)
+    (hcfg : cfg.history = pre ++ (topic, m, limit) :: post)
+    (hlast : ∀ c ∈ post, ¬(c.1 = topic ∧ matchKind c.2.1 = matchKind m)) :
+    0 < limit ∧
+    ∃ steps, r.broker =
+        (({ strict := cfg.strict, allowDisclose := cfg.allowDisclose } : Broker).preInit cfg.history).run steps ∧
+      ∃ st ∈ r.broker.hist, ∃ s ∈ r.broker.subs,
+        s.id = st.sub ∧ s.topic = topic ∧ s.kind = matchKind m ∧ st.limit = limit ∧
+        st.entries = lastN limit (retained s steps) ∧
+        (∀ st' ∈ r.broker.hist, st'.sub = st.sub → st' = st) := by
+  obtain ⟨r0, h0⟩ := WpA.reachable_created h
+  have hpos : 0 < limit := by
+    have := (WpA.create_historyOk h0 (topic, m, limit) (by rw [hcfg]; simp)).2
+    exact this
+  obtain ⟨steps, hb, _⟩ := WpA.reachable_run h
+  refine ⟨hpos, steps, hb, ?_⟩
+  obtain ⟨h00, hh0, s0, hs0, e1, e2, _, e4, e5⟩ :=
+    C20_configured cfg.strict cfg.allowDisclose pre post topic m limit hlast
+  rw [← hcfg] at hh0 hs0
+  obtain ⟨st, hst, f1, f2, f3, f4, s, hs, g1, g2, g3⟩ :=
+    C20_retention cfg.strict cfg.allowDisclose cfg.history steps hh0 hs0 e1 (by rw [e2]; exact hpos)
+  rw [← hb] at hst hs f4
+  refine ⟨st, hst, s, hs, by rw [g1, e1, f1], g2.trans e4, ?_, f2.trans e2, ?_, ?_⟩
+  · have : s.kind = s0.kind := by unfold Sub.kind; rw [g3]
+    rw [this, e5]
+  · rw [f3, e2, retained_congr g1 g2 g3]
+  · intro st' hst' he
+    exact f4 st' hst' (he.trans f1)
+
+/-- The four publication-bound clauses for the stores of reachable realms: the `Nodup` hypothesis
+    is discharged by `C20_store_pubs_nodup`. -/
+theorem C20_query_publication_realm {cfg : Config} {r : Realm} (h : Realm.Reachable cfg r)
+    (st : Hist) (hst : st ∈ r.broker.hist) (q : HistQuery)
+    (hT : q.fromT = none ∧ q.afterT = none ∧ q.beforeT = none ∧ q.untilT = none) (htopic : q.topic = "") :
+    ((q.fromPub ≠ 0 ∧ q.afterPub = 0 ∧ q.beforePub = 0 ∧ q.untilPub = 0) →
+      (∀ pre f post, st.entries = pre ++ f :: post → f.pub = q.fromPub →
+          histScan q st.entries q.fromPub q.afterPub false = f :: post) ∧
+      ((∀ e ∈ st.entries, e.pub ≠ q.fromPub) → histScan q st.entries q.fromPub q.afterPub false = [])) ∧
+    ((q.fromPub = 0 ∧ q.afterPub ≠ 0 ∧ q.beforePub = 0 ∧ q.untilPub = 0) →
+      (∀ pre f post, st.entries = pre ++ f :: post → f.pub = q.afterPub →
+          histScan q st.entries q.fromPub q.afterPub false = post) ∧
+      ((∀ e ∈ st.entries, e.pub ≠ q.afterPub) → histScan q st.entries q.fromPub q.afterPub false = [])) ∧
+    ((q.fromPub = 0 ∧ q.afterPub = 0 ∧ q.beforePub ≠ 0 ∧ q.untilPub = 0) →
+      (∀ pre f post, st.entries = pre ++ f :: post → f.pub = q.beforePub →
+          histScan q st.entries q.fromPub q.afterPub false = pre) ∧
+      ((∀ e ∈ st.entries, e.pub ≠ q.beforePub) → histScan q st.entries q.fromPub q.afterPub false = st.entries)) ∧
+    ((q.fromPub = 0 ∧ q.afterPub = 0 ∧ q.beforePub = 0 ∧ q.untilPub ≠ 0) →
+      (∀ pre f post, st.entries = pre ++ f :: post → f.pub = q.untilPub →
+          histScan q st.entries q.fromPub q.afterPub false = pre ++ [f]) ∧
+      ((∀ e ∈ st.entries, e.pub ≠ q.untilPub) → histScan q st.entries q.fromPub q.afterPub false = st.entries)) := by
+  have hn := (C20_store_pubs_nodup h st hst).1
+  exact ⟨fun hP => C20_query_from_publication q st.entries hT htopic hP hn,
+         fun hP => C20_query_after_publication q st.entries hT htopic hP hn,
+         fun hP => C20_query_before_publication q st.entries hT htopic hP hn,
+         fun hP => C20_query_until_publication q st.entries hT htopic hP hn⟩
+
+/-- In a reachable realm no `get_events` answer reveals a publisher: no stored entry carries a
+    publisher key (whatever was published with `disclose_me`, whoever was subscribed), and every
+    answered entry is a stored entry (`C20_answer_mem`). -/
+theorem C20_answer_no_identity_realm {cfg : Config} {r : Realm} (h : Realm.Reachable cfg r)
+    (st : Hist) (hst : st ∈ r.broker.hist) (q : HistQuery) :
+    ∀ e ∈ histAnswer q st.entries, ∀ key, isPublisherKey key → e.details.get? key = none :=
+  C20_answer_no_identity q st.entries (fun e he => WpA.hist_clean_reachable h st hst e he)
+
+/-- a concrete reachable realm with a history store that has retained a publication:
+    configuration `("a.", prefix, 2)`, session 1 joins and publishes "a.b" -/
+def exRCfg : Config := { history := [("a.", "prefix", 2)] }
+def exR0 : Realm := (Realm.create exRCfg).getD {}
+theorem exR0_create : Realm.create exRCfg = some exR0 := by
+  have h : (Realm.create exRCfg).isSome = true := by decide +kernel
+  unfold exR0
+  cases hc : Realm.create exRCfg with
+  | none => rw [hc] at h; cases h
+  | some r => rfl
+def exR : Realm :=
+  ((exR0.step (.join 1 false [] [] 8)).2.step (.msg 1 (.publish 1 [] "a.b" [.int 5] []))).2
+theorem exR_reachable : Realm.Reachable exRCfg exR := .step _ (.step _ (.init exR0_create))
+
+/-- the store of the example realm holds the publication; its id is `pubBase + 1`: the first id was
+    spent on the `wamp.session.on_join` meta event (which no store matches) -/
+example : exR.broker.hist.map (fun st => (st.sub, st.limit, st.entries.map (fun e => (e.pub, e.time)))) =
+    [(1, 2, [(pubBase + 1, 0)])] ∧ exR.pubCount = 2 := by decide +kernel
+
+example : exRCfg.history = [] ++ ("a.", "prefix", 2) :: [] ∧
+    ∀ c ∈ ([] : List (String × String × Nat)), ¬(c.1 = "a." ∧ matchKind c.2.1 = matchKind "prefix") :=
+  ⟨rfl, fun _ hc => nomatch hc⟩
 
 end Nexus.C20
